@@ -367,22 +367,26 @@ func runC11(rec *evi.Recorder, rt *rapid.T, sp *protoSpec, role protocol.Protoco
 	flush()
 
 	// ---- wait for the conversation to play out (bounded, generous)
-	const bound = 10 * time.Second
+	const bound = livenessWindow
 	if expectErr {
-		finished := r.waitFor(bound, func() bool { return len(r.errs) > 0 && r.isDone() })
-		if !finished {
+		finished := r.waitProgress(livenessWindow, livenessCap, func() bool { return len(r.errs) > 0 && r.isDone() }, nil)
+		if finished == "cap" {
+			rec.Class("inconclusive_still_progressing_at_cap")
+			return
+		}
+		if finished == "stalled" {
 			snap := r.snap()
 			miss := "no error on ErrorChan"
 			if len(snap.Errs) > 0 {
 				miss = "DoneChan still open"
 			}
 			rec.Eval()
-			rec.Fail(rt, keyBase+"offending-not-stopped", fmt.Sprintf("an offending message was put in front of the engine but after %v: %s", bound, miss),
+			rec.Fail(rt, keyBase+"offending-not-stopped", fmt.Sprintf("an offending message was put in front of the engine but nothing more happened for %v: %s", bound, miss),
 				caseObj(snap, map[string]any{"goroutines": goroutineDump()}))
 			return
 		}
 	} else {
-		complete := r.waitFor(bound, func() bool {
+		complete := r.waitProgress(livenessWindow, livenessCap, func() bool {
 			n := 0
 			for _, ev := range r.events {
 				if ev.Kind == "transition" {
@@ -390,8 +394,8 @@ func runC11(rec *evi.Recorder, rt *rapid.T, sp *protoSpec, role protocol.Protoco
 				}
 			}
 			return (n >= len(proj.Trs) && len(r.handledBy) >= len(proj.Handled)) || len(r.errs) > 0
-		})
-		if !complete {
+		}, nil)
+		if complete != "done" {
 			rec.Class("incomplete_without_error")
 		}
 		// let the engine take in every byte the peer wrote, then give it a chance to misbehave
